@@ -91,6 +91,10 @@ def m_ident(I, st, info, args, depth):
         return None
     v = args[0]
     td = info["tdef"]
+    if re.search(r"<impl \[T\]>::iter$|IntoIterator::into_iter$", td):
+        sv = deref(I, st, v)
+        if isinstance(sv, Seq) and sv.elems is not None and not (isinstance(sv, Struct)):
+            return ret(st, Struct("SliceIter", None, {"seq": sv, "pos": Aff(0)}))
     if re.search(r"to_owned$|to_string$|to_vec$|Clone::clone$|Box::<T>::new$|into_bytes$", td):
         return ret(st, deref(I, st, v))
     return ret(st, v)
@@ -368,6 +372,15 @@ def m_next(I, st, info, args, depth):
                     I.store_to(st, p, Struct(r.adt, r.variant, {"start": s_.add(Aff(1)), "end": e_}))
                     return ret(st, some(s_))
                 return ret(st, none())
+    p0 = I.resolve(st, args[0])
+    it0 = deref(I, st, p0)
+    if isinstance(it0, Struct) and it0.adt == "SliceIter":
+        sq, pos = it0.fields["seq"], it0.fields["pos"]
+        if pos.const < len(sq.elems):
+            if isinstance(p0, Ptr):
+                I.store_to(st, p0, Struct("SliceIter", None, {"seq": sq, "pos": Aff(pos.const + 1)}))
+            return ret(st, some(Ptr(st.new_cell(sq.elems[pos.const]), ())))
+        return ret(st, none())
     # generic iterator: may yield an opaque item or end
     s2 = st.clone()
     s2.cond.append("iterator yields an item")
@@ -387,6 +400,9 @@ def m_fold(I, st, info, args, depth):
     it = deref(I, st, args[0])
     acc = args[1]
     f = args[2]
+    if isinstance(it, Struct) and it.adt == "SliceIter":
+        sq = it.fields["seq"]
+        it = Seq(sq.name, sq.length, sq.elems[it.fields["pos"].const:], kind=sq.kind)
     if isinstance(it, Seq) and it.elems is not None:
         states = [(st, acc)]
         for e in it.elems:
@@ -537,7 +553,7 @@ def m_eq(I, st, info, args, depth):
         return None
     nm = info["name"]
     neg = info["tdef"].endswith("ne")
-    if re.search(r"<str as|<&str as|String as|impl core::cmp::PartialEq<&B> for &A|PartialEq<str>|PartialEq<&'a str>|PartialEq<alloc::string::String>|<&A as core::cmp::PartialEq<&B>>", nm + " " + info["def"]):
+    if re.search(r"<str as|<&str as|String as|impl core::cmp::PartialEq<&B> for &A|PartialEq<str>|PartialEq<&'a str>|PartialEq<alloc::string::String>|<&A as core::cmp::PartialEq<&B>>|PartialEq for str>|PartialEq<.*> for (str|alloc::string::String|&'a str)>", nm + " " + info["def"]):
         return [(s2, "return", BoolV(r != neg)) for s2, r in str_eq(I, st, args[0], args[1])]
     a, b = deref(I, st, args[0]), deref(I, st, args[1])
     if isinstance(a, Aff) and isinstance(b, Aff):
@@ -1281,11 +1297,11 @@ def m_checked(I, st, info, args, depth):
 SAFE_STD = (r"^core::str::<impl str>::(bytes|chars|char_indices|trim|trim_start|trim_end|trim_matches|starts_with|ends_with|contains|find|rfind|eq_ignore_ascii_case|is_char_boundary|"
             r"to_lowercase|to_uppercase|to_ascii_lowercase|to_ascii_uppercase|get|as_ptr|lines|split_once|rsplit_once|strip_prefix|strip_suffix|parse|is_ascii|nth|rsplitn|split_terminator|matches)$|"
             r"^alloc::str::<impl str>::(to_lowercase|to_uppercase|repeat|replace|to_ascii_lowercase|to_ascii_uppercase)$|"
-            r"^core::iter::traits::iterator::Iterator::(zip|map|filter|filter_map|enumerate|rev|skip|take|chain|cloned|copied|peekable|count|all|any|nth|last|position|sum|min|max|find|find_map|for_each|flat_map|flatten|take_while|skip_while|eq|cmp|by_ref|size_hint|map_while|inspect|fuse|step_by)$|"
+            r"^core::iter::traits::iterator::Iterator::(zip|map|filter|filter_map|enumerate|rev|skip|take|chain|cloned|copied|peekable|count|nth|last|position|sum|min|max|find|find_map|for_each|flat_map|flatten|take_while|skip_while|eq|cmp|by_ref|size_hint|map_while|inspect|fuse|step_by)$|"
             r"^core::iter::traits::double_ended::DoubleEndedIterator::(next_back|rev|rfold|rfind|nth_back)$|"
             r"^core::slice::<impl \[T\]>::(iter_mut|starts_with|ends_with|chunks|chunks_exact|chunks_exact_mut|windows|split_first|split_last|to_owned|concat|is_sorted|binary_search|get_mut|fill|reverse|as_ptr)$|"
             r"^alloc::vec::Vec::<T, A>::(get|first|last|clear|truncate|reserve|capacity|pop|iter|as_ptr|shrink_to_fit|dedup|retain|append|is_empty)$|"
-            r"^alloc::string::String::(push_str|push|clear|capacity|with_capacity|from_utf8_lossy|truncate|pop|reserve)$|^core::char::methods::<impl char>::|^core::num::<impl u8>::(is_ascii|to_ascii|eq_ignore)|"
+            r"^alloc::string::String::(clear|capacity|from_utf8_lossy|truncate|pop|reserve)$|^core::char::methods::<impl char>::|^core::num::<impl u8>::(is_ascii|to_ascii|eq_ignore)|"
             r"^core::option::Option::<T>::(and_then|or|or_else|map_or|map_or_else|zip|and|xor|get_or_insert_with|insert|replace|iter|is_some_and|inspect|flatten|ok_or)$|"
             r"^core::result::Result::<T, E>::(and_then|or|or_else|map_or|map_or_else|and|iter|is_ok_and|is_err_and|inspect|inspect_err|err|as_ref|copied|cloned)$|"
             r"^std::collections::hash::map::HashMap::<K, V, S(, A)?>::(get|iter|keys|values|len|is_empty|get_key_value)$|^std::collections::hash::set::HashSet::<T, S(, A)?>::(contains|get|len|is_empty|iter)$|"
@@ -1355,3 +1371,113 @@ def m_slice_get(I, st, info, args, depth):
                         out.append((s3, "return", some(Seq("%s[%r..%r]" % (s_.name, a, b), b.sub(a), kind="bytes")) if t2 else none()))
                 return out
     return ret(st, Sym("%s@%d" % (op, info["ln"]), attrs={"adt": "core::option::Option"}))
+
+
+@model(r"^core::num::<impl u(64|32|16|size)>::to_le_bytes$|^core::num::<impl u(64|32|16|size)>::to_be_bytes$")
+def m_to_le_bytes(I, st, info, args, depth):
+    x = I.resolve(st, args[0])
+    n = {"64": 8, "32": 4, "16": 2, "size": 8}[re.search(r"impl u(64|32|16|size)", info["tdef"]).group(1)]
+    if isinstance(x, Aff):
+        bs = [Bits(x, 8 * i, 0xFF, "u8") if not x.is_const() else Aff((x.const >> (8 * i)) & 0xFF, ty="u8") for i in range(n)]
+        if info["tdef"].endswith("to_be_bytes"):
+            bs = list(reversed(bs))
+        return ret(st, Seq("bytes", Aff(n), bs, kind="array"))
+    return ret(st, Seq("bytes", Aff(n), None, kind="array"))
+
+
+@model(r"^alloc::string::String::with_capacity$")
+def m_string_new(I, st, info, args, depth):
+    return ret(st, Seq("string", Aff(0), None, [], kind="str"))
+
+
+@model(r"^alloc::string::String::(push_str|push)$")
+def m_push_str(I, st, info, args, depth):
+    p = I.resolve(st, args[0])
+    cur = deref(I, st, p)
+    x = deref(I, st, args[1])
+    if isinstance(p, Ptr) and isinstance(cur, Seq):
+        chunks = list(cur.chunks) if cur.chunks is not None else ([("arg", cur)] if cur.elems is None and cur.name != "string" else [])
+        if isinstance(x, StrV):
+            chunks.append(("lit", x.s))
+            add = Aff(len(x.s.encode()))
+        elif isinstance(x, Aff) and x.is_const() and info["tdef"].endswith("push"):
+            chunks.append(("lit", chr(x.const)))
+            add = Aff(len(chr(x.const).encode()))
+        else:
+            chunks.append(("arg", x))
+            add = length_of(I, st, x) or Aff.sym("len?")
+        I.store_to(st, p, Seq(cur.name, cur.length.add(add), None, chunks, cur.attrs, "str"))
+    return ret(st, UNIT)
+
+
+@model(r"^core::iter::traits::iterator::Iterator::(any|all)$")
+def m_any(I, st, info, args, depth):
+    it = deref(I, st, args[0])
+    if isinstance(it, Struct) and it.adt == "SliceIter":
+        sq = it.fields["seq"]
+        elems = sq.elems[it.fields["pos"].const:]
+    elif isinstance(it, Seq) and it.elems is not None:
+        elems = it.elems
+    else:
+        return m_safe_std(I, st, info, args, depth)
+    want_any = info["tdef"].endswith("any")
+    out = []
+    cur = [st]
+    for e in elems:
+        nxt = []
+        for s2 in cur:
+            for s3, kind, val in I.call_value(s2, args[1], [Ptr(s2.new_cell(e), ())], depth):
+                if kind != "return":
+                    out.append((s3, kind, val))
+                    continue
+                for s4, t in fork_bool(I, s3, I.resolve(s3, val)) if isinstance(I.resolve(s3, val), (BoolV, SymBool)) else [(s3, None)]:
+                    if t is None:
+                        s4.notes.append("undecided predicate in any/all")
+                        out.append((s4, "return", Top("any")))
+                    elif t == want_any:
+                        out.append((s4, "return", BoolV(want_any)))
+                    else:
+                        nxt.append(s4)
+        cur = nxt
+    for s2 in cur:
+        out.append((s2, "return", BoolV(not want_any)))
+    return out
+
+
+@model(r"^core::fmt::Formatter::<'a>::write_fmt$|^core::fmt::Formatter::<'a>::write_str$|^core::fmt::Write::write_str$|^core::fmt::Write::write_fmt$|^<str as core::fmt::Display>::fmt$|^core::fmt::Display::fmt$")
+def m_fmt_write(I, st, info, args, depth):
+    """Display output is recorded as events (what a Display impl prints is its abstract result)"""
+    if info["def"] in I.facts.bodies:
+        return None
+    td = info["tdef"]
+    if td.endswith("write_fmt"):
+        a = deref(I, st, args[1])
+        r = m_format(I, st, info, [a], depth)
+        val = r[0][2]
+        chunks = val.chunks if isinstance(val, Seq) and val.chunks is not None else [("arg", val)]
+        for kind, x in chunks:
+            st.events.append(("fmt", kind, deref(I, st, x) if kind == "arg" else x))
+    elif td.endswith("write_str"):
+        st.events.append(("fmt", "arg", deref(I, st, args[1])))
+    else:
+        # <str as Display>::fmt(s, f) / Display::fmt(x, f)
+        st.events.append(("fmt", "arg", deref(I, st, args[0])))
+    return ret(st, ok(UNIT))
+
+
+def displayed(I, st, events):
+    """concatenated Display output of a run as a list of pieces (concrete strings merged)"""
+    out = []
+    for e in events:
+        if e[0] != "fmt":
+            continue
+        x = e[2]
+        s = x if isinstance(x, str) else (x.s if isinstance(x, StrV) else None)
+        if s is not None:
+            if out and isinstance(out[-1], str):
+                out[-1] += s
+            else:
+                out.append(s)
+        else:
+            out.append(x)
+    return [p for p in out if p != ""]
